@@ -4,7 +4,7 @@
    and scanning ([c04_recovers_chain], preconditions = the boolean [mix_wf_layout]).  Frame-pointer frames inside a
    mix, STACK WIN and the evaluation of real rule text are covered by the correspondence run (design/C04.md). *)
 From Coq Require Import Lia ZArith List.
-From RM Require Import C05.Model C05.Proofs C04.Model C04.Proofs C04.ProofsFp C04.ProofsMix.
+From RM Require Import C05.Model C05.Proofs C04.Model C04.Proofs C04.ProofsFp C04.ProofsMix C04.ProofsRules.
 Import ListNotations.
 Open Scope Z_scope.
 
@@ -108,6 +108,38 @@ Theorem c04_recovers_chain :
     = Ret (from_context r v TContext :: mix_chain a v gp0 base 0 fs).
 Proof. exact mix_recovers_gen. Qed.
 Print Assumptions c04_recovers_chain.
+
+(* ... with STACK CFI rules EVALUATED instead of the abstract oracle: [cfi_rules] is the evaluator of the rule family
+   `.cfa: <sp> N + .ra: .cfa <pointer width> - ^` against the CFI walker (sp must be valid, u64 wrapping arithmetic, the
+   return address read from the stack memory at .cfa - pw, cfa and ra must fit the register), the symbol files abstracted
+   to [rule_at] : lookup address -> N.  Precondition on the rules ([rules_ok], boolean): the callee of every CFI frame is
+   covered by a record whose N is that frame's size, the callee of every scan frame by none.  Same conclusion. *)
+Theorem c04_recovers_chain_rules :
+  forall p a os module_at max_module_addr instr_valid base fs ip0 gp0 fuel rule_at,
+    mix_arch a os ->
+    mix_wf_layout a instr_valid module_at base ip0 fs = true ->
+    rules_ok a rule_at ip0 fs = true ->
+    (length fs < fuel)%nat ->
+    let '(r, v, mem) := mix_layout a base ip0 gp0 fs in
+    walk_stack current_code p a os mem module_at max_module_addr (cfi_rules a mem rule_at) instr_valid fuel r v
+    = Ret (from_context r v TContext :: mix_chain a v gp0 base 0 fs).
+Proof. exact mix_recovers_rules. Qed.
+Print Assumptions c04_recovers_chain_rules.
+
+(* ... and for any symbol-file oracle that agrees with the correct one on the frames the walk REACHES (sp at a record of the
+   layout, fp = lr = 0, sp valid, the lookup address of that position): the form a concrete evaluator can meet *)
+Theorem c04_recovers_chain_reached :
+  forall p a os module_at max_module_addr instr_valid base fs ip0 gp0 fuel cfi_walk,
+    mix_arch a os ->
+    (forall done f t callee gc fwd, fs = done ++ f :: t -> reached a base ip0 callee done ->
+                                    cfi_walk callee gc fwd = mix_cfi_correct a base fs callee gc fwd) ->
+    mix_wf_layout a instr_valid module_at base ip0 fs = true ->
+    (length fs < fuel)%nat ->
+    let '(r, v, mem) := mix_layout a base ip0 gp0 fs in
+    walk_stack current_code p a os mem module_at max_module_addr cfi_walk instr_valid fuel r v
+    = Ret (from_context r v TContext :: mix_chain a v gp0 base 0 fs).
+Proof. exact mix_recovers_reached. Qed.
+Print Assumptions c04_recovers_chain_reached.
 
 (* ... read column by column: frame i of the recovered chain has lookup address ra_i - adj (its module is the module
    lookup of that address, C08), return address ra_i and the technique label generated for call i; one frame per call *)
@@ -229,3 +261,14 @@ Example c04_nonvacuous_mix_run :
              map f_trust (firstn 6 (tl fs)) = [TCfi; TScan; TCfi; TCfi; TScan; TScan] /\
              map f_resume (firstn 3 (tl fs)) = [1073742080; 1073742096; 1073742112].
 Proof. cbn [mix_layout]. eexists. split; [vm_compute; reflexivity|]. repeat split; reflexivity. Qed.
+
+(* the rule table of [nv_mix 0 64] on amd64: the callee of call i is the context (i = 0) or call i-1's return address - 1 *)
+Definition nv_rule_at (x : Z) : option Z :=
+  let i := if x =? 1073741904 then 0%nat else Z.to_nat ((x + 1 - 1073742080) / 16 + 1) in
+  if (Nat.eqb (i mod 3) 0 || Nat.eqb (i mod 7) 2)%bool then Some (8 * (Z.of_nat (i mod 5) + 1)) else None.
+Example c04_nonvacuous_rules :
+  rules_ok amd64 nv_rule_at 1073741904 (nv_mix 0 64) = true /\
+  let '(r, v, mem) := mix_layout amd64 140724603453440 1073741904 [7; 8; 9] (nv_mix 0 64) in
+  exists fs, walk_stack current_code Release amd64 OS_OTHER mem nv_mods 0 (cfi_rules amd64 mem nv_rule_at) nv_iv (fuel_for mem) r v = Ret fs /\
+             length fs = 65%nat /\ map f_trust (firstn 6 (tl fs)) = [TCfi; TScan; TCfi; TCfi; TScan; TScan].
+Proof. split; [vm_compute; reflexivity|]. cbn [mix_layout]. eexists. split; [vm_compute; reflexivity|]. split; reflexivity. Qed.
